@@ -38,7 +38,7 @@ from zcsim.world import pkg_file_key
 ID = "C12"
 LEVEL = "exploration"
 HAS_CLOCK = False
-BUDGET = {"quick": (20000, 300), "thorough": (1500000, 1500)}
+BUDGET = {"quick": (30000, 300), "thorough": (1500000, 1500)}
 RULE = (
     "A case is one load of a history of 1..4 loads against one schema "
     "object; texts are sequences of %import lines and section headers (see "
@@ -414,7 +414,7 @@ def generate(rng, tier, index):
         if rng.random() < 0.5:
             plan["components"]["zcsim_p0"]["types"][-1]["extends"] = \
                 plan["components"]["zcsim_p1"]["types"][0]["name"]
-    if npk and rng.random() < 0.3:
+    if npk and rng.random() < 0.4:
         # a twin of zcsim_p0: section types of the SAME NAMES that implement
         # something else (or nothing).  Importing both into one load is a
         # redefinition; importing them in different loads of one history
